@@ -17,6 +17,7 @@ import (
 	"sort"
 	"strconv"
 	"strings"
+	"sync"
 
 	utilexec "k8s.io/utils/exec"
 )
@@ -117,6 +118,9 @@ type Kernel struct {
 	// FailAt > 0 makes the FailAt-th command (counted from the last ResetFault) fail without effect.
 	FailAt int
 	count  int
+	// Serialize makes Run safe for concurrent callers (commands are applied one at a time, like under the xtables lock).
+	Serialize bool
+	mu        sync.Mutex
 	// Ports the harness considers bound outside galaxy (unused by the simulator itself).
 }
 
@@ -752,6 +756,10 @@ func (k *Kernel) setReferenced(set string) bool { return k.refCount(set) > 0 }
 
 // Run executes one command line against the kernel.
 func (k *Kernel) Run(cmd string, args []string, stdin []byte) (string, error) {
+	if k.Serialize {
+		k.mu.Lock()
+		defer k.mu.Unlock()
+	}
 	line := cmd + " " + strings.Join(args, " ")
 	k.count++
 	k.Cmds = append(k.Cmds, line)
